@@ -33,6 +33,16 @@ pub enum Trial {
     ExitContract { specs: Vec<ExecSpec>, kinds: Vec<String>, class: String, exit_code: Option<i32>, label: String },
     /// C16: invalid option combination: rejected with non-zero status before any output is written.
     Rejected { spec: ExecSpec, label: String },
+    /// C02: one catalogue fault; every mode in which the rule is active must report it.
+    Fault {
+        /// one spec per check mode (index into CHECK_MODES)
+        runs: Vec<(usize, ExecSpec)>,
+        expects: Vec<ExpectRec>,
+        silent_in_sanity: bool,
+        silent_in_sanity_no_target: bool,
+        exit_code: i32,
+        fault: String,
+    },
     /// C10: [E10]/[E11] at an RDH's offset iff the reference models flag it.
     RdhWalk { spec: ExecSpec, e10: Vec<u64>, e11: Vec<u64>, running: bool, label: String },
     /// C09: in-process walk of the real FSM / payload validator against the diagram model.
@@ -69,6 +79,16 @@ pub enum Trial {
     StatsTruth { spec: ExecSpec, analysed: bool, label: String },
     /// C18: input ends after k bytes, for each k in `cuts`.
     Truncate { full: ExecSpec, cuts: Vec<u64>, allowed_status: Vec<i32>, rows_mode: bool, label: String },
+}
+
+#[derive(Serialize, Deserialize, Clone, Debug, PartialEq)]
+pub struct ExpectRec {
+    pub codes: Vec<String>,
+    pub offset: u64,
+    pub sanity: bool,
+    pub all: bool,
+    pub needs_its: bool,
+    pub stave_only: bool,
 }
 
 #[derive(Serialize, Deserialize, Clone, Debug, PartialEq)]
@@ -291,6 +311,9 @@ impl Trial {
             }
             Trial::Rejected { spec, label } => crate::t_exit::run_rejected(ex, spec, label),
             Trial::Truthful { spec, label } => crate::t_stream::run_truthful(ex, spec, label),
+            Trial::Fault { runs, expects, silent_in_sanity, silent_in_sanity_no_target, exit_code, fault } => {
+                run_fault(ex, runs, expects, *silent_in_sanity, *silent_in_sanity_no_target, *exit_code, fault)
+            }
             Trial::RdhWalk { spec, e10, e11, running, label } => run_rdh_walk(ex, spec, e10, e11, *running, label),
             Trial::FsmWalk { words, packet_lens, label } => crate::t_fsm::run_fsm_walk(ex, words, packet_lens, label),
             Trial::Markers { spec, marker_offsets, label } => run_markers(ex, spec, marker_offsets, label),
@@ -325,6 +348,7 @@ impl Trial {
             Trial::Truthful { spec, .. } => vec![spec],
             Trial::Markers { spec, .. } => vec![spec],
             Trial::RdhWalk { spec, .. } => vec![spec],
+            Trial::Fault { runs, .. } => runs.iter_mut().map(|(_, s)| s).collect(),
             Trial::FsmWalk { .. } => vec![],
             Trial::ExcessPadding { spec, .. } => vec![spec],
             Trial::Views { plain, styled, .. } => vec![plain, styled],
@@ -354,6 +378,17 @@ impl Trial {
                     base: base.clone(),
                     variants: vec![variants[i].clone()],
                     label: label.clone(),
+                })
+                .collect(),
+            Trial::Fault { runs, expects, silent_in_sanity, silent_in_sanity_no_target, exit_code, fault } if runs.len() > 1 => runs
+                .iter()
+                .map(|r| Trial::Fault {
+                    runs: vec![r.clone()],
+                    expects: expects.clone(),
+                    silent_in_sanity: *silent_in_sanity,
+                    silent_in_sanity_no_target: *silent_in_sanity_no_target,
+                    exit_code: *exit_code,
+                    fault: fault.clone(),
                 })
                 .collect(),
             Trial::Scan { specs, label } if specs.len() > 1 => specs
@@ -406,6 +441,11 @@ impl Trial {
                 "runs": kinds, "exec": s(&specs[0])}),
             Trial::Rejected { spec, label } => json!({"trial": "rejected", "label": label, "exec": s(spec)}),
             Trial::Truthful { spec, label } => json!({"trial": "truthful", "label": label, "exec": s(spec)}),
+            Trial::Fault { runs, expects, fault, exit_code, .. } => json!({
+                "trial": "fault", "fault": fault, "any_errors_exit_code": exit_code,
+                "expectations": expects.iter().map(|e| json!({"codes": e.codes, "offset": format!("{:#X}", e.offset),
+                    "check_sanity": e.sanity, "check_all": e.all, "needs_its_target": e.needs_its, "stave_only": e.stave_only})).collect::<Vec<_>>(),
+                "modes_run": runs.len(), "exec": s(&runs[0].1)}),
             Trial::RdhWalk { spec, e10, e11, running, label } => json!({
                 "trial": "rdh-walk", "label": label, "rdhs": spec.input.len() / 64, "expected_E10": e10.len(),
                 "expected_E11": if *running { e11.len() } else { 0 }, "exec": s(spec)}),
@@ -972,6 +1012,92 @@ fn run_rdh_walk(ex: &mut Executor, spec: &ExecSpec, e10: &[u64], e11: &[u64], ru
     // nothing else may be reported for RDH-only packets
     if let Some(e) = errs.iter().find(|e| e.codes.first().map_or(true, |c| c != "E10" && c != "E11")) {
         out.fail = Some(Fail::new("rdh-rules", "unexpected-message", tagm(clip(&e.text))));
+    }
+    out
+}
+
+fn run_fault(
+    ex: &mut Executor,
+    runs: &[(usize, ExecSpec)],
+    expects: &[ExpectRec],
+    silent_in_sanity: bool,
+    silent_no_target: bool,
+    exit_code: i32,
+    fault: &str,
+) -> TrialOutcome {
+    let mut out = TrialOutcome { labels: vec![fault.to_string()], nontrivial: true, ..Default::default() };
+    ex.fault(&format!("stream_fault:{fault}"));
+    for (i, (mode, spec)) in runs.iter().enumerate() {
+        let r = ex.exec(spec);
+        if i == 0 {
+            out.key = case_key(&spec.input, &r);
+        }
+        if let Some(f) = check_orderly(&r) {
+            out.fail = Some(f);
+            return out;
+        }
+        let is_sanity = *mode <= 1;
+        let target_its = *mode == 1 || *mode >= 3;
+        let target_stave = *mode == 4;
+        let errs = oracle::error_msgs(&r.stderr);
+        let cmd = spec.cmdline();
+        let mut any_active = false;
+        for e in expects {
+            let active = (if is_sanity { e.sanity } else { e.all })
+                && (!e.needs_its || target_its)
+                && (!e.stave_only || target_stave);
+            if !active {
+                continue;
+            }
+            any_active = true;
+            let hit = errs.iter().any(|m| {
+                m.offset == Some(e.offset)
+                    && e.codes.iter().any(|c| {
+                        if c.is_empty() {
+                            m.text.contains("Payload error following RDH")
+                        } else {
+                            m.codes.iter().any(|mc| mc == c)
+                        }
+                    })
+            });
+            if !hit {
+                let at: Vec<String> = errs.iter().filter(|m| m.offset == Some(e.offset)).map(|m| format!("{:?}", m.codes)).collect();
+                out.fail = Some(Fail::new(
+                    "missed-detection",
+                    &format!("{fault}:{}", e.codes.first().map(|c| if c.is_empty() { "payload-error" } else { c.as_str() }).unwrap_or("?")),
+                    format!(
+                        "fault `{fault}`: expected {:?} at {:#X} in `{cmd}`; messages at that offset: {at:?}; {} messages in total, first: {:?}",
+                        e.codes,
+                        e.offset,
+                        errs.len(),
+                        errs.first().map(|m| clip(&m.text))
+                    ),
+                ));
+                return out;
+            }
+        }
+        if any_active && r.status != exit_code {
+            out.fail = Some(Fail::new(
+                "missed-detection",
+                &format!("{fault}:exit-status"),
+                format!("fault `{fault}` detected in `{cmd}` but exit status is {} instead of {exit_code}", r.status),
+            ));
+            return out;
+        }
+        let must_be_silent = is_sanity && (silent_in_sanity || (silent_no_target && !target_its));
+        if must_be_silent && (!errs.is_empty() || r.status != 0) {
+            out.fail = Some(Fail::new(
+                "false-alarm",
+                &format!("{fault}:reported-by-check-sanity"),
+                format!(
+                    "fault `{fault}` is a purely stateful violation but `{cmd}` reports {} messages (status {}), first: {:?}",
+                    errs.len(),
+                    r.status,
+                    errs.first().map(|m| clip(&m.text))
+                ),
+            ));
+            return out;
+        }
     }
     out
 }
